@@ -3,7 +3,7 @@
    the transcendental closures of [K], and encodes the result. *)
 From Coq Require Import ZArith QArith Qcanon List.
 From GB Require Import Base.Field Base.FNum Model.Shell Model.MomentInt Model.Spherical
-  Model.Assembly Model.Overlap Extract.Sx.
+  Model.Assembly Model.Overlap Extract.Sx Extract.RunScreen.
 Import ListNotations.
 
 Definition err (code : Z) : sx := SL [SZ (-1); SZ code].
@@ -32,7 +32,7 @@ Definition run_core (K : Fops Qc) (c : Z) (args : list sx) : option sx :=
   end.
 
 Definition dispatchers : list (Fops Qc -> Z -> list sx -> option sx) :=
-  [run_core].
+  [run_core; run_screen].
 
 Definition run (K : Fops Qc) (cmd : sx) : sx :=
   match cmd with
